@@ -24,8 +24,18 @@ use crate::{
         curve_points::RP25519,
         ec_prime_field::Fp25519,
     },
+    error::{LengthError, UnwrapInfallible},
+    helpers::hashing::Hash,
+    query::ProtocolResult,
+    report::{
+        hybrid::{
+            AggregateableHybridReport, HybridConversionReport, HybridImpressionReport,
+            IndistinguishableHybridReport, PrfHybridReport, UniqueBytes, UniqueTag,
+        },
+        hybrid_info::{HybridConversionInfo, HybridImpressionInfo},
+    },
     secret_sharing::{
-        SharedValue, StdArray, Vectorizable,
+        BitDecomposed, SharedValue, StdArray, TransposeFrom, Vectorizable,
         replicated::{ReplicatedSecretSharing, semi_honest::AdditiveShare},
     },
 };
@@ -165,6 +175,87 @@ where
     }
 }
 
+impl Wire for Hash {
+    fn leaves(&self, out: &mut Vec<String>) {
+        out.push(le_to_hexint(&to_raw(self)));
+    }
+    fn build(it: &mut dyn Iterator<Item = &str>) -> Self {
+        from_raw(&bits_to_bytes(&hex_to_bits(it.next().unwrap(), 256)))
+    }
+}
+
+impl Wire for UniqueTag {
+    fn leaves(&self, out: &mut Vec<String>) {
+        out.push(le_to_hexint(&self.unique_bytes()));
+    }
+    fn build(it: &mut dyn Iterator<Item = &str>) -> Self {
+        from_raw(&bits_to_bytes(&hex_to_bits(it.next().unwrap(), 128)))
+    }
+}
+
+fn bits_to_bytes(bits: &[bool]) -> Vec<u8> {
+    bits.chunks(8).map(|c| c.iter().enumerate().fold(0u8, |a, (k, b)| a | (u8::from(*b) << k))).collect()
+}
+
+impl<const N: usize> Wire for [Hash; N]
+where
+    [Hash; N]: Serializable,
+{
+    fn leaves(&self, out: &mut Vec<String>) {
+        for h in self {
+            h.leaves(out);
+        }
+    }
+    fn build(it: &mut dyn Iterator<Item = &str>) -> Self {
+        std::array::from_fn(|_| Hash::build(it))
+    }
+}
+
+impl<const N: usize> Wire for [Fp61BitPrime; N]
+where
+    [Fp61BitPrime; N]: Serializable,
+{
+    fn leaves(&self, out: &mut Vec<String>) {
+        for h in self {
+            h.leaves(out);
+        }
+    }
+    fn build(it: &mut dyn Iterator<Item = &str>) -> Self {
+        std::array::from_fn(|_| Fp61BitPrime::build(it))
+    }
+}
+
+impl<const N: usize> Wire for Box<[Fp61BitPrime; N]>
+where
+    Box<[Fp61BitPrime; N]>: Serializable,
+{
+    fn leaves(&self, out: &mut Vec<String>) {
+        for h in self.iter() {
+            h.leaves(out);
+        }
+    }
+    fn build(it: &mut dyn Iterator<Item = &str>) -> Self {
+        Box::new(std::array::from_fn(|_| Fp61BitPrime::build(it)))
+    }
+}
+
+impl Wire for PrfHybridReport<BA8, BA3> {
+    fn leaves(&self, out: &mut Vec<String>) {
+        out.push(format!("{:x}", self.match_key));
+        self.value.leaves(out);
+        self.breakdown_key.leaves(out);
+    }
+    fn build(it: &mut dyn Iterator<Item = &str>) -> Self {
+        let match_key = u64::from_str_radix(it.next().unwrap(), 16).unwrap();
+        let value = AdditiveShare::<BA3>::build(it);
+        let breakdown_key = AdditiveShare::<BA8>::build(it);
+        Self { match_key, value, breakdown_key }
+    }
+}
+
+/// `ARRAY_LEN` of proof_generation.rs (private there): first proof + 13 compressed proofs of 7 elements
+const PROOF_ARRAY_LEN: usize = 98;
+
 // ------------------------------------------------------------------------------------------------
 // executors
 
@@ -269,6 +360,15 @@ fn exec_serde(op: &str, ty: &str, args: &[&str]) -> String {
         Some((w, l)) => (w, l),
         None => ("", ty),
     };
+    match (wrap, leaf) {
+        ("", "Hash") => return run::<Hash>(op, args),
+        ("", "UniqueTag") => return run::<UniqueTag>(op, args),
+        ("", "HashArr") => return run::<[Hash; 14]>(op, args),
+        ("", "ProofDiff") => return run::<[Fp61BitPrime; 15]>(op, args),
+        ("", "ProofArr") => return run::<Box<[Fp61BitPrime; PROOF_ARRAY_LEN]>>(op, args),
+        ("", "Prf") => return run::<PrfHybridReport<BA8, BA3>>(op, args),
+        _ => {}
+    }
     match wrap {
         "" => for_leaves!(dispatch_leaf!(leaf, op, args, w_id;)),
         "share" => for_leaves!(dispatch_leaf!(leaf, op, args, w_share;)),
@@ -300,9 +400,490 @@ fn exec_rp(op: &str, args: &[&str]) -> String {
     }
 }
 
+// ------------------------------------------------------------------------------------------------
+// transposes: c09.tr <kind> <M> <N> <form> <left-hex> <right-hex|->
+
+fn from_raw<B: Serializable>(b: &[u8]) -> B {
+    B::deserialize(GenericArray::from_slice(b)).unwrap()
+}
+
+fn to_raw<B: Serializable>(b: &B) -> Vec<u8> {
+    let mut buf = GenericArray::<u8, B::Size>::default();
+    b.serialize(&mut buf);
+    buf.to_vec()
+}
+
+fn split_rows(h: &str, row_bytes: usize) -> Vec<Vec<u8>> {
+    unhex(h).chunks(row_bytes).map(<[u8]>::to_vec).collect()
+}
+
+fn show_pairs(res: Result<Vec<(Vec<u8>, Vec<u8>)>, LengthError>) -> String {
+    match res {
+        Ok(v) => {
+            let l: Vec<u8> = v.iter().flat_map(|p| p.0.clone()).collect();
+            let r: Vec<u8> = v.iter().flat_map(|p| p.1.clone()).collect();
+            format!("{} {}", hex(&l), hex(&r))
+        }
+        Err(e) => format!("err {} {}", e.expected, e.actual),
+    }
+}
+
+fn to_arr<T, const N: usize>(v: Vec<T>) -> [T; N] {
+    v.try_into().ok().expect("harness: wrong number of source rows for the array form")
+}
+
+macro_rules! tr_ba_to_ba {
+    ($dst:ty, $src:ty, $m:expr, $n:expr, $form:expr, $l:expr) => {{
+        let rows: Vec<$src> = split_rows($l, $n / 8).iter().map(|r| from_raw::<$src>(r)).collect();
+        let src: [$src; $m] = to_arr(rows);
+        let out: Vec<$dst> = match $form {
+            "arr" => {
+                let mut dst = [<$dst>::ZERO; $n];
+                dst.transpose_from(&src).unwrap_infallible();
+                dst.to_vec()
+            }
+            "shim" => {
+                let mut dst: Vec<$dst> = vec![];
+                dst.transpose_from(&src).unwrap_infallible();
+                dst
+            }
+            f => panic!("harness: unknown form {f}"),
+        };
+        hex(&out.iter().flat_map(|b| to_raw(b)).collect::<Vec<u8>>())
+    }};
+}
+
+fn bool_shares<A, const N: usize>(l: &str, r: &str) -> Vec<AdditiveShare<Boolean, N>>
+where
+    Boolean: Vectorizable<N, Array = A>,
+    A: Serializable,
+{
+    split_rows(l, N / 8)
+        .iter()
+        .zip(split_rows(r, N / 8).iter())
+        .map(|(a, b)| AdditiveShare::<Boolean, N>::new_arr(from_raw::<A>(a), from_raw::<A>(b)))
+        .collect()
+}
+
+fn ba_shares<B>(l: &str, r: &str, row_bytes: usize) -> Vec<AdditiveShare<B>>
+where
+    B: SharedValue + Vectorizable<1> + Serializable,
+{
+    split_rows(l, row_bytes)
+        .iter()
+        .zip(split_rows(r, row_bytes).iter())
+        .map(|(a, b)| AdditiveShare::<B>::new(from_raw::<B>(a), from_raw::<B>(b)))
+        .collect()
+}
+
+fn raw_bool<A, const N: usize>(v: &[AdditiveShare<Boolean, N>]) -> Vec<(Vec<u8>, Vec<u8>)>
+where
+    Boolean: Vectorizable<N, Array = A>,
+    A: Serializable,
+{
+    v.iter().map(|s| (to_raw(s.left_arr()), to_raw(s.right_arr()))).collect()
+}
+
+fn raw_ba<B>(v: &[AdditiveShare<B>]) -> Vec<(Vec<u8>, Vec<u8>)>
+where
+    B: SharedValue + Vectorizable<1> + Serializable,
+{
+    v.iter().map(|s| (to_raw(&s.left()), to_raw(&s.right()))).collect()
+}
+
+macro_rules! tr_bool_to_ba {
+    ($dst:ty, $srcarr:ty, $m:expr, $n:expr, $form:expr, $l:expr, $r:expr) => {{
+        let src: Vec<AdditiveShare<Boolean, $n>> = bool_shares::<$srcarr, $n>($l, $r);
+        let res: Result<Vec<AdditiveShare<$dst>>, LengthError> = match $form {
+            "arr" => {
+                let src: [AdditiveShare<Boolean, $n>; $m] = to_arr(src);
+                let mut dst: [AdditiveShare<$dst>; $n] = std::array::from_fn(|_| AdditiveShare::<$dst>::ZERO);
+                dst.transpose_from(&src).unwrap_infallible();
+                Ok(dst.to_vec())
+            }
+            "shim" => {
+                let bd = BitDecomposed::new(src);
+                let mut dst: Vec<AdditiveShare<$dst>> = vec![];
+                dst.transpose_from(&bd).map(|()| dst)
+            }
+            f => panic!("harness: unknown form {f}"),
+        };
+        show_pairs(res.map(|v| raw_ba(&v)))
+    }};
+}
+
+macro_rules! tr_ba_to_bool {
+    ($src:ty, $dstarr:ty, $m:expr, $n:expr, $form:expr, $l:expr, $r:expr) => {{
+        let src: Vec<AdditiveShare<$src>> = ba_shares::<$src>($l, $r, $n / 8);
+        let src: [AdditiveShare<$src>; $m] = to_arr(src);
+        let out: Vec<AdditiveShare<Boolean, $m>> = match $form {
+            "arr" => {
+                let mut dst: [AdditiveShare<Boolean, $m>; $n] = std::array::from_fn(|_| AdditiveShare::<Boolean, $m>::ZERO);
+                dst.transpose_from(&src).unwrap_infallible();
+                dst.to_vec()
+            }
+            "shim" => {
+                let mut dst: BitDecomposed<AdditiveShare<Boolean, $m>> = BitDecomposed::default();
+                dst.transpose_from(&src).unwrap_infallible();
+                dst.iter().cloned().collect()
+            }
+            f => panic!("harness: unknown form {f}"),
+        };
+        show_pairs(Ok(raw_bool::<$dstarr, $m>(&out)))
+    }};
+}
+
+macro_rules! tr_ba_fn_to_bool {
+    ($src:ty, $dstarr:ty, $m:expr, $n:expr, $form:expr, $l:expr, $r:expr) => {{
+        let src: Vec<AdditiveShare<$src>> = ba_shares::<$src>($l, $r, $n / 8);
+        assert_eq!(src.len(), $m, "harness: wrong number of source rows");
+        let f = |i: usize| src[i].clone();
+        let fr: &dyn Fn(usize) -> AdditiveShare<$src> = &f;
+        let out: Vec<AdditiveShare<Boolean, $m>> = match $form {
+            "arr" => {
+                let mut dst: [AdditiveShare<Boolean, $m>; $n] = std::array::from_fn(|_| AdditiveShare::<Boolean, $m>::ZERO);
+                dst.transpose_from(fr).unwrap_infallible();
+                dst.to_vec()
+            }
+            "shim" => {
+                let mut dst: BitDecomposed<AdditiveShare<Boolean, $m>> = BitDecomposed::default();
+                dst.transpose_from(fr).unwrap_infallible();
+                dst.iter().cloned().collect()
+            }
+            f => panic!("harness: unknown form {f}"),
+        };
+        show_pairs(Ok(raw_bool::<$dstarr, $m>(&out)))
+    }};
+}
+
+macro_rules! tr_ba_to_bool_small {
+    ($src:ty, $dstarr:ty, $m:expr, $n:expr, $form:expr, $l:expr, $r:expr) => {{
+        let src: Vec<AdditiveShare<$src>> = ba_shares::<$src>($l, $r, ($n + 7) / 8);
+        let res: Result<Vec<AdditiveShare<Boolean, $m>>, LengthError> = match $form {
+            "arr" => {
+                let src: [AdditiveShare<$src>; $m] = to_arr(src);
+                let mut dst: [AdditiveShare<Boolean, $m>; ($n + 7) / 8 * 8] =
+                    std::array::from_fn(|_| AdditiveShare::<Boolean, $m>::ZERO);
+                dst.transpose_from(&src).unwrap_infallible();
+                Ok(dst.to_vec())
+            }
+            "shim" => {
+                let src: [AdditiveShare<$src>; $m] = to_arr(src);
+                let mut dst: BitDecomposed<AdditiveShare<Boolean, $m>> = BitDecomposed::default();
+                dst.transpose_from(&src).unwrap_infallible();
+                Ok(dst.iter().cloned().collect())
+            }
+            "shimvec" => {
+                let mut dst: BitDecomposed<AdditiveShare<Boolean, $m>> = BitDecomposed::default();
+                dst.transpose_from(&src).map(|()| dst.iter().cloned().collect())
+            }
+            f => panic!("harness: unknown form {f}"),
+        };
+        show_pairs(res.map(|v| raw_bool::<$dstarr, $m>(&v)))
+    }};
+}
+
+macro_rules! tr_aggregation {
+    ($dstarr:ty, $srcarr:ty, $m:expr, $n:expr, $bits:expr, $l:expr, $r:expr) => {{
+        let b: usize = $bits.parse().unwrap();
+        let all: Vec<AdditiveShare<Boolean, $n>> = bool_shares::<$srcarr, $n>($l, $r);
+        assert_eq!(all.len(), b * $m, "harness: wrong amount of data");
+        // request layout: bit-major (b matrices of M rows); the source is indexed [row][bit]
+        let src: Vec<BitDecomposed<AdditiveShare<Boolean, $n>>> =
+            (0..$m).map(|row| BitDecomposed::new((0..b).map(|bit| all[bit * $m + row].clone()))).collect();
+        let mut dst: Vec<BitDecomposed<AdditiveShare<Boolean, $m>>> = vec![];
+        dst.transpose_from(src.as_slice()).unwrap_infallible();
+        assert_eq!(dst.len(), $n);
+        let mut out: Vec<AdditiveShare<Boolean, $m>> = vec![];
+        for bit in 0..b {
+            for row in 0..$n {
+                out.push(dst[row][bit].clone());
+            }
+        }
+        show_pairs(Ok(raw_bool::<$dstarr, $m>(&out)))
+    }};
+}
+
+/// The impls the harness can drive — must mirror the `impl_transpose_*!` invocations of transpose.rs
+/// (the model's list is regenerated from the source; `c09.tr-list` compares the two).
+const TR_IMPLS: &[(&str, usize, usize)] = &[
+    ("ba_to_ba", 64, 64), ("ba_to_ba", 256, 256),
+    ("bool_to_ba", 256, 256), ("bool_to_ba_small", 8, 256), ("bool_to_ba", 16, 256), ("bool_to_ba", 16, 32),
+    ("bool_to_ba", 32, 256), ("bool_to_ba_small", 8, 32), ("bool_to_ba_small", 32, 32), ("bool_to_ba_small", 8, 8),
+    ("bool_to_ba", 16, 16), ("bool_to_ba_small", 8, 16),
+    ("ba_to_bool", 256, 64), ("ba_fn_to_bool", 256, 64),
+    ("ba_to_bool_small", 256, 32), ("ba_to_bool_small", 256, 16), ("ba_to_bool_small", 256, 8),
+    ("ba_to_bool_small", 256, 5), ("ba_to_bool_small", 256, 3), ("ba_to_bool_small", 32, 8), ("ba_to_bool_small", 32, 3),
+    ("ba_to_bool", 32, 32), ("ba_to_bool", 32, 16), ("ba_to_bool_small", 16, 8),
+    ("aggregation_transpose", 256, 256), ("aggregation_transpose", 32, 256),
+];
+
+fn exec_tr(a: &[&str]) -> String {
+    let (kind, m, n, form, l, r) = (a[0], a[1], a[2], a[3], a[4], a[5]);
+    match (kind, m, n) {
+        ("ba_to_ba", "64", "64") => tr_ba_to_ba!(BA64, BA64, 64, 64, form, l),
+        ("ba_to_ba", "256", "256") => tr_ba_to_ba!(BA256, BA256, 256, 256, form, l),
+        ("bool_to_ba", "256", "256") => tr_bool_to_ba!(BA256, BA256, 256, 256, form, l, r),
+        ("bool_to_ba", "16", "256") => tr_bool_to_ba!(BA16, BA256, 16, 256, form, l, r),
+        ("bool_to_ba", "16", "32") => tr_bool_to_ba!(BA16, BA32, 16, 32, form, l, r),
+        ("bool_to_ba", "32", "256") => tr_bool_to_ba!(BA32, BA256, 32, 256, form, l, r),
+        ("bool_to_ba", "16", "16") => tr_bool_to_ba!(BA16, BA16, 16, 16, form, l, r),
+        ("bool_to_ba_small", "8", "256") => tr_bool_to_ba!(BA8, BA256, 8, 256, form, l, r),
+        ("bool_to_ba_small", "8", "32") => tr_bool_to_ba!(BA8, BA32, 8, 32, form, l, r),
+        ("bool_to_ba_small", "32", "32") => tr_bool_to_ba!(BA32, BA32, 32, 32, form, l, r),
+        ("bool_to_ba_small", "8", "8") => tr_bool_to_ba!(BA8, BA8, 8, 8, form, l, r),
+        ("bool_to_ba_small", "8", "16") => tr_bool_to_ba!(BA8, BA16, 8, 16, form, l, r),
+        ("ba_to_bool", "256", "64") => tr_ba_to_bool!(BA64, BA256, 256, 64, form, l, r),
+        ("ba_to_bool", "32", "32") => tr_ba_to_bool!(BA32, BA32, 32, 32, form, l, r),
+        ("ba_to_bool", "32", "16") => tr_ba_to_bool!(BA16, BA32, 32, 16, form, l, r),
+        ("ba_fn_to_bool", "256", "64") => tr_ba_fn_to_bool!(BA64, BA256, 256, 64, form, l, r),
+        ("ba_to_bool_small", "256", "32") => tr_ba_to_bool_small!(BA32, BA256, 256, 32, form, l, r),
+        ("ba_to_bool_small", "256", "16") => tr_ba_to_bool_small!(BA16, BA256, 256, 16, form, l, r),
+        ("ba_to_bool_small", "256", "8") => tr_ba_to_bool_small!(BA8, BA256, 256, 8, form, l, r),
+        ("ba_to_bool_small", "256", "5") => tr_ba_to_bool_small!(BA5, BA256, 256, 5, form, l, r),
+        ("ba_to_bool_small", "256", "3") => tr_ba_to_bool_small!(BA3, BA256, 256, 3, form, l, r),
+        ("ba_to_bool_small", "32", "8") => tr_ba_to_bool_small!(BA8, BA32, 32, 8, form, l, r),
+        ("ba_to_bool_small", "32", "3") => tr_ba_to_bool_small!(BA3, BA32, 32, 3, form, l, r),
+        ("ba_to_bool_small", "16", "8") => tr_ba_to_bool_small!(BA8, BA16, 16, 8, form, l, r),
+        ("aggregation_transpose", "256", "256") => tr_aggregation!(BA256, BA256, 256, 256, form, l, r),
+        ("aggregation_transpose", "32", "256") => tr_aggregation!(BA32, BA256, 32, 256, form, l, r),
+        _ => panic!("harness: no such transpose impl {kind} {m}x{n}"),
+    }
+}
+
+// ------------------------------------------------------------------------------------------------
+// composite wire types: c09.vec / c09.pack / c09.info / c09.rep
+
+fn vec_to_bytes<T: Wire + std::fmt::Debug + Send>(arg: &str) -> String {
+    let rows: Vec<T> = if arg == "-" {
+        vec![]
+    } else {
+        arg.split(';').map(|r| T::build(&mut r.split(':'))).collect()
+    };
+    hex(&ProtocolResult::to_bytes(&rows))
+}
+
+fn exec_vec(ty: &str, arg: &str) -> String {
+    match ty {
+        "share:BA8" => vec_to_bytes::<AdditiveShare<BA8>>(arg),
+        "share:BA32" => vec_to_bytes::<AdditiveShare<BA32>>(arg),
+        "share:BA3" => vec_to_bytes::<AdditiveShare<BA3>>(arg),
+        "share:Fp32BitPrime" => vec_to_bytes::<AdditiveShare<Fp32BitPrime>>(arg),
+        "share:Fp31" => vec_to_bytes::<AdditiveShare<Fp31>>(arg),
+        "Prf" => vec_to_bytes::<PrfHybridReport<BA8, BA3>>(arg),
+        other => panic!("harness: no Vec<{other}> result type"),
+    }
+}
+
+/// `Shuffleable` is not imported at file level: its `new` would clash with `ReplicatedSecretSharing::new`.
+mod shuf {
+    use crate::protocol::ipa_prf::shuffle::Shuffleable;
+    pub fn left<T: Shuffleable>(t: &T) -> T::Share {
+        t.left()
+    }
+    pub fn right<T: Shuffleable>(t: &T) -> T::Share {
+        t.right()
+    }
+    pub fn new<T: Shuffleable>(l: T::Share, r: T::Share) -> T {
+        T::new(l, r)
+    }
+}
+
+fn h128(s: &str) -> u128 {
+    u128::from_str_radix(s, 16).unwrap()
+}
+
+fn pack_hyb<BK, V>(op: &str, a: &[&str]) -> String
+where
+    BK: crate::ff::boolean_array::BooleanArray + U128Conversions + Vectorizable<1>,
+    V: crate::ff::boolean_array::BooleanArray + U128Conversions + Vectorizable<1>,
+{
+    type R<BK, V> = IndistinguishableHybridReport<BK, V>;
+    match op {
+        "lr" => {
+            let f: Vec<u128> = a.iter().map(|x| h128(x)).collect();
+            let r = R::<BK, V> {
+                match_key: AdditiveShare::new(BA64::truncate_from(f[0]), BA64::truncate_from(f[1])),
+                value: AdditiveShare::new(V::truncate_from(f[2]), V::truncate_from(f[3])),
+                breakdown_key: AdditiveShare::new(BK::truncate_from(f[4]), BK::truncate_from(f[5])),
+            };
+            format!("{:x} {:x}", shuf::left(&r).as_u128(), shuf::right(&r).as_u128())
+        }
+        "new" => {
+            let r: R<BK, V> = shuf::new(BA112::truncate_from(h128(a[0])), BA112::truncate_from(h128(a[1])));
+            format!(
+                "{:x}:{:x}:{:x}:{:x}:{:x}:{:x}",
+                r.match_key.left().as_u128(), r.match_key.right().as_u128(),
+                r.value.left().as_u128(), r.value.right().as_u128(),
+                r.breakdown_key.left().as_u128(), r.breakdown_key.right().as_u128()
+            )
+        }
+        _ => panic!("harness: unknown pack op {op}"),
+    }
+}
+
+fn pack_agg<BK, V>(op: &str, a: &[&str]) -> String
+where
+    BK: crate::ff::boolean_array::BooleanArray + U128Conversions + Vectorizable<1>,
+    V: crate::ff::boolean_array::BooleanArray + U128Conversions + Vectorizable<1>,
+{
+    type R<BK, V> = AggregateableHybridReport<BK, V>;
+    match op {
+        "lr" => {
+            let f: Vec<u128> = a.iter().map(|x| h128(x)).collect();
+            let r = R::<BK, V> {
+                match_key: (),
+                value: AdditiveShare::new(V::truncate_from(f[0]), V::truncate_from(f[1])),
+                breakdown_key: AdditiveShare::new(BK::truncate_from(f[2]), BK::truncate_from(f[3])),
+            };
+            format!("{:x} {:x}", shuf::left(&r).as_u128(), shuf::right(&r).as_u128())
+        }
+        "new" => {
+            let r: R<BK, V> = shuf::new(BA32::truncate_from(h128(a[0])), BA32::truncate_from(h128(a[1])));
+            format!(
+                "{:x}:{:x}:{:x}:{:x}",
+                r.value.left().as_u128(), r.value.right().as_u128(),
+                r.breakdown_key.left().as_u128(), r.breakdown_key.right().as_u128()
+            )
+        }
+        _ => panic!("harness: unknown pack op {op}"),
+    }
+}
+
+const PACK_HYB: &[(&str, &str)] = &[("BA8", "BA3"), ("BA5", "BA3"), ("BA32", "BA16"), ("BA20", "BA20"), ("BA8", "BA32"), ("BA32", "BA32")];
+const PACK_AGG: &[(&str, &str)] = &[("BA8", "BA3"), ("BA16", "BA16"), ("BA8", "BA20"), ("BA5", "BA3"), ("BA32", "BA8")];
+
+fn exec_pack(a: &[&str]) -> String {
+    let (kind, bk, v, op, rest) = (a[0], a[1], a[2], a[3], &a[4..]);
+    match (kind, bk, v) {
+        ("hyb", "BA8", "BA3") => pack_hyb::<BA8, BA3>(op, rest),
+        ("hyb", "BA5", "BA3") => pack_hyb::<BA5, BA3>(op, rest),
+        ("hyb", "BA32", "BA16") => pack_hyb::<BA32, BA16>(op, rest),
+        ("hyb", "BA20", "BA20") => pack_hyb::<BA20, BA20>(op, rest),
+        ("hyb", "BA8", "BA32") => pack_hyb::<BA8, BA32>(op, rest),
+        ("hyb", "BA32", "BA32") => pack_hyb::<BA32, BA32>(op, rest),
+        ("agg", "BA8", "BA3") => pack_agg::<BA8, BA3>(op, rest),
+        ("agg", "BA16", "BA16") => pack_agg::<BA16, BA16>(op, rest),
+        ("agg", "BA8", "BA20") => pack_agg::<BA8, BA20>(op, rest),
+        ("agg", "BA5", "BA3") => pack_agg::<BA5, BA3>(op, rest),
+        ("agg", "BA32", "BA8") => pack_agg::<BA32, BA8>(op, rest),
+        _ => panic!("harness: no such packing instance {kind} {bk} {v}"),
+    }
+}
+
+fn conv_info(a: &[&str]) -> HybridConversionInfo {
+    HybridConversionInfo {
+        key_id: u8::from_str_radix(a[0], 16).unwrap(),
+        conversion_site_domain: String::from_utf8(unhex(a[1])).expect("harness: domain must be UTF-8"),
+        timestamp: u64::from_str_radix(a[2], 16).unwrap(),
+        epsilon: f64::from_bits(u64::from_str_radix(a[3], 16).unwrap()),
+        sensitivity: f64::from_bits(u64::from_str_radix(a[4], 16).unwrap()),
+    }
+}
+
+fn show_conv(c: &HybridConversionInfo) -> String {
+    format!(
+        "{:x} {} {:x} {:x} {:x}",
+        c.key_id, hex(c.conversion_site_domain.as_bytes()), c.timestamp, c.epsilon.to_bits(), c.sensitivity.to_bits()
+    )
+}
+
+/// error or panic on malformed input are both "rejected" for C09 (which one it is belongs to C10/C17)
+fn rej_on_panic(f: impl FnOnce() -> Option<String>) -> String {
+    match guarded(f) {
+        Ok(Some(s)) => format!("ok {s}"),
+        Ok(None) | Err(_) => "rej".into(),
+    }
+}
+
+fn exec_info(a: &[&str]) -> String {
+    match (a[0], a[1]) {
+        ("imp", "en") => {
+            let i = HybridImpressionInfo::new(u8::from_str_radix(a[2], 16).unwrap());
+            let b = i.to_bytes();
+            assert_eq!(b.len(), i.byte_len());
+            hex(&b)
+        }
+        ("imp", "de") => {
+            let b = unhex(a[2]);
+            rej_on_panic(|| HybridImpressionInfo::from_bytes(&b).ok().map(|i| format!("{:x} {}", i.key_id, hex(&i.to_bytes()))))
+        }
+        ("conv", "en") => {
+            let c = conv_info(&a[2..]);
+            let b = c.to_bytes();
+            assert_eq!(b.len(), c.byte_len());
+            hex(&b)
+        }
+        ("conv", "de") => {
+            let b = unhex(a[2]);
+            rej_on_panic(|| HybridConversionInfo::from_bytes(&b).ok().map(|c| format!("{} {}", show_conv(&c), hex(&c.to_bytes()))))
+        }
+        _ => panic!("harness: unknown info request"),
+    }
+}
+
+fn exec_rep(a: &[&str]) -> String {
+    let mk = |l: &str, r: &str| AdditiveShare::<BA64>::new(BA64::truncate_from(h128(l)), BA64::truncate_from(h128(r)));
+    match (a[0], a[1]) {
+        ("imp", "en") => {
+            let r = HybridImpressionReport::<BA8> {
+                match_key: mk(a[2], a[3]),
+                breakdown_key: AdditiveShare::new(BA8::truncate_from(h128(a[4])), BA8::truncate_from(h128(a[5]))),
+                info: HybridImpressionInfo::new(u8::from_str_radix(a[6], 16).unwrap()),
+            };
+            let mut buf = Vec::new();
+            r.serialize(&mut buf);
+            hex(&buf)
+        }
+        ("imp", "de") => {
+            let b = bytes::Bytes::from(unhex(a[2]));
+            rej_on_panic(|| {
+                HybridImpressionReport::<BA8>::deserialize(&b).ok().map(|r| {
+                    let mut ls = vec![];
+                    r.match_key.leaves(&mut ls);
+                    r.breakdown_key.leaves(&mut ls);
+                    let mut buf = Vec::new();
+                    r.serialize(&mut buf);
+                    format!("{} {:x} {}", ls.join(":"), r.info.key_id, hex(&buf))
+                })
+            })
+        }
+        ("conv", "en") => {
+            let r = HybridConversionReport::<BA3> {
+                match_key: mk(a[2], a[3]),
+                value: AdditiveShare::new(BA3::truncate_from(h128(a[4])), BA3::truncate_from(h128(a[5]))),
+                info: conv_info(&a[6..]),
+            };
+            let mut buf = Vec::new();
+            r.serialize(&mut buf);
+            hex(&buf)
+        }
+        ("conv", "de") => {
+            let b = bytes::Bytes::from(unhex(a[2]));
+            rej_on_panic(|| {
+                HybridConversionReport::<BA3>::deserialize(&b).ok().map(|r| {
+                    let mut ls = vec![];
+                    r.match_key.leaves(&mut ls);
+                    r.value.leaves(&mut ls);
+                    let mut buf = Vec::new();
+                    r.serialize(&mut buf);
+                    format!("{} {} {}", ls.join(":"), show_conv(&r.info), hex(&buf))
+                })
+            })
+        }
+        _ => panic!("harness: unknown report request"),
+    }
+}
+
 pub fn exec(req: &str) -> String {
     let t: Vec<&str> = req.split(' ').collect();
     match t[0] {
+        "c09.vec" => exec_vec(t[1], t[2]),
+        "c09.pack" => exec_pack(&t[1..]),
+        "c09.info" => exec_info(&t[1..]),
+        "c09.rep" => exec_rep(&t[1..]),
+        "c09.tr" => exec_tr(&t[1..]),
+        "c09.tr-list" => TR_IMPLS.iter().map(|(k, m, n)| format!("{k}:{m}x{n}")).collect::<Vec<_>>().join(","),
         "c09.blk" | "c09.de" | "c09.en" => exec_serde(t[0], t[1], &t[2..]),
         "c09.rp" => exec_rp(t[1], &t[2..]),
         _ => panic!("harness: unknown request {req}"),
@@ -618,6 +1199,316 @@ fn gen_rp(rng: &mut Rng, thorough: bool, out: &mut Vec<String>) {
             push(out, &b);
         }
     }
+}
+
+/// source matrices: all-zero, all-ones, every one-hot position (small shapes) or a spread of one-hot
+/// positions incl. the corners (large shapes), random.
+fn gen_transpose(rng: &mut Rng, thorough: bool) -> Vec<String> {
+    let mut out = vec!["c09.tr-list".to_string()];
+    for &(kind, m, n) in TR_IMPLS {
+        let row_bytes = (n + 7) / 8;
+        let mask_row = |row: &mut Vec<u8>| {
+            if n % 8 != 0 {
+                let last = row.len() - 1;
+                row[last] &= (1u8 << (n % 8)) - 1;
+            }
+        };
+        let mut mats: Vec<Vec<u8>> = vec![];
+        mats.push(vec![0u8; m * row_bytes]);
+        let mut ones = vec![];
+        for _ in 0..m {
+            let mut row = vec![0xffu8; row_bytes];
+            mask_row(&mut row);
+            ones.extend(row);
+        }
+        mats.push(ones);
+        let mut hot: Vec<(usize, usize)> = vec![];
+        if m * n <= 512 {
+            for i in 0..m {
+                for j in 0..n {
+                    hot.push((i, j));
+                }
+            }
+        } else {
+            let edge = |d: usize| -> Vec<usize> {
+                if thorough { vec![0, 1, 7, 8, 15, 16, d / 2, d - 2, d - 1] } else { vec![0, 7, 8, 16, d - 1] }
+            };
+            for &i in &edge(m) {
+                for &j in &edge(n) {
+                    if i < m && j < n {
+                        hot.push((i, j));
+                    }
+                }
+            }
+            for _ in 0..(if thorough { 200 } else { 8 }) {
+                hot.push((rng.usize_below(m), rng.usize_below(n)));
+            }
+            hot.sort_unstable();
+            hot.dedup();
+        }
+        for (i, j) in hot {
+            let mut mat = vec![0u8; m * row_bytes];
+            mat[i * row_bytes + j / 8] |= 1 << (j % 8);
+            mats.push(mat);
+        }
+        for _ in 0..(if thorough { 40 } else { 4 }) {
+            let mut mat = vec![];
+            for _ in 0..m {
+                let mut row = rng.bytes(row_bytes);
+                mask_row(&mut row);
+                mat.extend(row);
+            }
+            mats.push(mat);
+        }
+        let forms: &[&str] = match kind {
+            "ba_to_bool_small" => &["arr", "shim", "shimvec"],
+            "aggregation_transpose" => &["1", "2"],
+            _ => &["arr", "shim"],
+        };
+        for (idx, mat) in mats.iter().enumerate() {
+            // the other share: a different matrix (the next one), so left/right mix-ups are visible
+            let other = &mats[(idx + 1) % mats.len()];
+            for form in forms {
+                if kind == "aggregation_transpose" {
+                    let b: usize = form.parse().unwrap();
+                    if idx % 3 != 0 && m * n > 512 && !thorough {
+                        continue;
+                    }
+                    let l: Vec<u8> = (0..b).flat_map(|k| mats[(idx + k) % mats.len()].clone()).collect();
+                    let r: Vec<u8> = (0..b).flat_map(|k| mats[(idx + k + 1) % mats.len()].clone()).collect();
+                    out.push(format!("c09.tr {kind} {m} {n} {form} {} {}", hex(&l), hex(&r)));
+                } else if kind == "ba_to_ba" {
+                    out.push(format!("c09.tr {kind} {m} {n} {form} {} -", hex(mat)));
+                } else {
+                    out.push(format!("c09.tr {kind} {m} {n} {form} {} {}", hex(mat), hex(other)));
+                }
+            }
+        }
+        // LengthErrors of the fallible shims: sources that are too short / too long / empty
+        let fallible = match kind {
+            "bool_to_ba" | "bool_to_ba_small" => Some("shim"),
+            "ba_to_bool_small" => Some("shimvec"),
+            _ => None,
+        };
+        if let Some(form) = fallible {
+            let mut lens = vec![0usize, 1, m - 1];
+            if m < 256 || form == "shimvec" {
+                lens.push(m + 1);
+                lens.push(2 * m);
+            }
+            for len in lens {
+                let mat = &mats[mats.len() - 1];
+                let data: Vec<u8> = mat.iter().cycle().take(len * row_bytes).copied().collect();
+                out.push(format!("c09.tr {kind} {m} {n} {form} {} {}", hex(&data), hex(&data)));
+            }
+        }
+    }
+    out
+}
+
+fn gen_wire(rng: &mut Rng, thorough: bool) -> Vec<String> {
+    let mut out = vec![];
+    let p61 = u128::from(Fp61BitPrime::PRIME);
+    let n = if thorough { 200 } else { 20 };
+    // --- raw byte types and arrays of them
+    for ty in ["Hash", "UniqueTag", "HashArr"] {
+        let len = match ty { "Hash" => 32, "UniqueTag" => 16, _ => 14 * 32 };
+        for pat in [vec![0u8; len], vec![0xff; len]] {
+            out.push(format!("c09.de {ty} {}", hex(&pat)));
+        }
+        for _ in 0..n {
+            let b = rng.bytes(len);
+            out.push(format!("c09.de {ty} {}", hex(&b)));
+            let leaves: Vec<String> = b.chunks(if ty == "UniqueTag" { 16 } else { 32 }).map(le_to_hexint).collect();
+            out.push(format!("c09.en {ty} {}", leaves.join(":")));
+        }
+    }
+    // --- proof arrays: canonical, and exactly one non-canonical element at every position
+    for (ty, len) in [("ProofDiff", 15usize), ("ProofArr", PROOF_ARRAY_LEN)] {
+        for rep in 0..(if thorough { 6 } else { 2 }) {
+            let elems: Vec<u128> = (0..len)
+                .map(|i| match (rep, i % 4) { (0, 0) => p61 - 1, (0, 1) => 0, (0, 2) => 1, _ => rng.next_u128() % p61 })
+                .collect();
+            let enc = |es: &[u128]| -> Vec<u8> { es.iter().flat_map(|e| (*e as u64).to_le_bytes()).collect() };
+            out.push(format!("c09.de {ty} {}", hex(&enc(&elems))));
+            out.push(format!("c09.en {ty} {}", elems.iter().map(|e| format!("{e:x}")).collect::<Vec<_>>().join(":")));
+            for pos in 0..len {
+                for bad in [p61, p61 + 1, u128::from(u64::MAX), 1u128 << 61, 1u128 << 63] {
+                    if rep > 0 && bad != p61 && pos % 7 != 0 {
+                        continue;
+                    }
+                    let mut e2 = elems.clone();
+                    e2[pos] = bad;
+                    out.push(format!("c09.de {ty} {}", hex(&enc(&e2))));
+                }
+            }
+        }
+    }
+    // --- PrfHybridReport<BA8, BA3>: all value-share byte pairs for some match keys / breakdown keys
+    let mks: Vec<u64> = vec![0, 1, u64::MAX, rng.next_u64(), rng.next_u64()];
+    for (k, mk) in mks.iter().enumerate() {
+        let bk = if k == 0 { [0u8, 0] } else { [rng.next_u64() as u8, rng.next_u64() as u8] };
+        let step = if thorough || k == 0 { 1 } else { 37 };
+        for v in (0..65536u32).step_by(step) {
+            if k == 0 && !thorough && v % 256 >= 8 && (v >> 8) >= 8 && v % 5 != 0 {
+                continue; // keep every pair with a canonical half and a fifth of the doubly non-canonical ones
+            }
+            let mut b = mk.to_le_bytes().to_vec();
+            b.extend_from_slice(&(v as u16).to_le_bytes());
+            b.extend_from_slice(&bk);
+            out.push(format!("c09.de Prf {}", hex(&b)));
+        }
+        for v in 0..64u32 {
+            out.push(format!("c09.en Prf {mk:x}:{:x}:{:x}:{:x}:{:x}", v % 8, v / 8, bk[0], bk[1]));
+        }
+    }
+    // --- Vec<T>::to_bytes
+    for (ty, bound, leaves) in [("share:BA8", 256u128, 2usize), ("share:BA32", 1 << 32, 2), ("share:BA3", 8, 2),
+                                ("share:Fp32BitPrime", u128::from(Fp32BitPrime::PRIME), 2), ("share:Fp31", 31, 2), ("Prf", 0, 5)] {
+        for rows in [0usize, 1, 2, 3, 16, 255, 256, 257] {
+            if rows > 16 && !thorough && ty != "share:BA32" {
+                continue;
+            }
+            if rows == 0 {
+                out.push(format!("c09.vec {ty} -"));
+                continue;
+            }
+            let row = |rng: &mut Rng| -> String {
+                if ty == "Prf" {
+                    format!("{:x}:{:x}:{:x}:{:x}:{:x}", rng.next_u64(), rng.below(8), rng.below(8), rng.below(256), rng.below(256))
+                } else {
+                    (0..leaves).map(|_| format!("{:x}", rng.next_u128() % bound)).collect::<Vec<_>>().join(":")
+                }
+            };
+            let v: Vec<String> = (0..rows).map(|_| row(rng)).collect();
+            out.push(format!("c09.vec {ty} {}", v.join(";")));
+        }
+    }
+    // --- shuffle packing
+    let bits = |n: &str| -> u32 { n[2..].parse().unwrap() };
+    let mask = |b: u32| -> u128 { if b >= 128 { u128::MAX } else { (1u128 << b) - 1 } };
+    for (kind, list, share) in [("hyb", PACK_HYB, 112u32), ("agg", PACK_AGG, 32u32)] {
+        for (bk, v) in list {
+            let ws: Vec<u32> = if kind == "hyb" { vec![64, bits(v), bits(bk)] } else { vec![bits(v), bits(bk)] };
+            for rep in 0..(if thorough { 200 } else { 24 }) {
+                let mut fields = vec![];
+                for w in &ws {
+                    for _side in 0..2 {
+                        let x = match rep { 0 => 0, 1 => mask(*w), 2 => 1, 3 => 1u128 << (w - 1), _ => rng.next_u128() & mask(*w) };
+                        fields.push(format!("{x:x}"));
+                    }
+                }
+                out.push(format!("c09.pack {kind} {bk} {v} lr {}", fields.join(" ")));
+                let (l, r) = match rep {
+                    0 => (0, 0),
+                    1 => (mask(share), mask(share)),
+                    2 => (mask(share), 0),
+                    _ => (rng.next_u128() & mask(share), rng.next_u128() & mask(share)),
+                };
+                out.push(format!("c09.pack {kind} {bk} {v} new {l:x} {r:x}"));
+                // one-hot shares: every bit position lands in exactly one field
+                if rep == 4 {
+                    for b in 0..share {
+                        out.push(format!("c09.pack {kind} {bk} {v} new {:x} {:x}", 1u128 << b, 1u128 << (share - 1 - b)));
+                    }
+                }
+            }
+        }
+    }
+    // --- Hybrid*Info
+    for k in 0..=255u32 {
+        out.push(format!("c09.info imp en {k:x}"));
+        out.push(format!("c09.info imp de {k:02x}"));
+        out.push(format!("c09.info imp de {k:02x}00"));
+        out.push(format!("c09.info imp de {k:02x}{:02x}{:02x}", rng.below(256), rng.below(256)));
+    }
+    out.push("c09.info imp de -".into());
+    let domains: Vec<Vec<u8>> = vec![
+        vec![], b"a".to_vec(), b"https://www.example2.com".to_vec(), b"meta.com".to_vec(),
+        "\u{e9}t\u{e9}.example".as_bytes().to_vec(), "\u{65e5}\u{672c}.jp".as_bytes().to_vec(), "\u{1f600}".as_bytes().to_vec(),
+        vec![b'x'; 255], vec![b'y'; 1000], vec![0x7f], vec![0x01],
+    ];
+    let f64s: Vec<u64> = vec![0, 1.151f64.to_bits(), 0.95f64.to_bits(), (-0.0f64).to_bits(), f64::INFINITY.to_bits(),
+                              f64::NAN.to_bits(), f64::MAX.to_bits(), f64::MIN_POSITIVE.to_bits(), 1, u64::MAX, 0x7ff8_0000_0000_0001];
+    let mut convs: Vec<(u8, Vec<u8>, u64, u64, u64)> = vec![];
+    for (i, d) in domains.iter().enumerate() {
+        for j in 0..(if thorough { 12 } else { 3 }) {
+            let ts = match j { 0 => 0, 1 => u64::MAX, _ => rng.next_u64() };
+            convs.push(((i * 31 + j) as u8, d.clone(), ts, f64s[(i + j) % f64s.len()], f64s[(i + 2 * j + 3) % f64s.len()]));
+        }
+    }
+    for (k, d, ts, e, sv) in &convs {
+        out.push(format!("c09.info conv en {k:x} {} {ts:x} {e:x} {sv:x}", hex(d)));
+        let mut b = d.clone();
+        b.push(0);
+        b.push(*k);
+        b.extend_from_slice(&ts.to_be_bytes());
+        b.extend_from_slice(&e.to_be_bytes());
+        b.extend_from_slice(&sv.to_be_bytes());
+        out.push(format!("c09.info conv de {}", hex(&b)));
+        // trailing bytes, truncation, no delimiter, invalid UTF-8 in the domain
+        let mut t = b.clone();
+        t.push(0);
+        out.push(format!("c09.info conv de {}", hex(&t)));
+        t.extend_from_slice(&rng.bytes(3));
+        out.push(format!("c09.info conv de {}", hex(&t)));
+        out.push(format!("c09.info conv de {}", hex(&b[..b.len() - 1])));
+        if d.len() < 300 {
+            let nodelim: Vec<u8> = b.iter().map(|x| if *x == 0 { 1 } else { *x }).collect();
+            out.push(format!("c09.info conv de {}", hex(&nodelim)));
+            let mut bad = b.clone();
+            bad.insert(0, 0xff);
+            out.push(format!("c09.info conv de {}", hex(&bad)));
+            let mut bad2 = b.clone();
+            bad2.insert(0, 0xc0);
+            bad2.insert(1, 0x80);
+            out.push(format!("c09.info conv de {}", hex(&bad2)));
+        }
+        // plaintext conversion report: every BA3 share pair class
+        for (vl, vr) in [(0u8, 0u8), (7, 7), (8, 0), (0, 8), (0xff, 1), ((*k) % 8, (*ts % 8) as u8)] {
+            let mut rb = rng.bytes(16);
+            rb.push(vl);
+            rb.push(vr);
+            rb.extend_from_slice(&b);
+            out.push(format!("c09.rep conv de {}", hex(&rb)));
+            if vl < 8 && vr < 8 {
+                out.push(format!(
+                    "c09.rep conv en {:x} {:x} {vl:x} {vr:x} {k:x} {} {ts:x} {e:x} {sv:x}",
+                    rng.next_u64(), rng.next_u64(), hex(d)
+                ));
+            }
+            rb.push(0);
+            out.push(format!("c09.rep conv de {}", hex(&rb)));
+        }
+    }
+    out.push("c09.info conv de -".into());
+    out.push("c09.info conv de 00".into());
+    // plaintext impression reports
+    for rep in 0..(if thorough { 300 } else { 40 }) {
+        let mut b = match rep { 0 => vec![0u8; 18], 1 => vec![0xff; 18], _ => rng.bytes(18) };
+        let k = rng.below(256) as u8;
+        b.push(k);
+        out.push(format!("c09.rep imp de {}", hex(&b)));
+        out.push(format!("c09.rep imp en {:x} {:x} {:x} {:x} {k:x}", rng.next_u64(), rng.next_u64(), rng.below(256), rng.below(256)));
+        let mut t = b.clone();
+        t.push(rng.below(256) as u8);
+        out.push(format!("c09.rep imp de {}", hex(&t)));
+        out.push(format!("c09.rep imp de {}", hex(&b[..18])));
+        if rep < 19 {
+            out.push(format!("c09.rep imp de {}", hex(&b[..rep])));
+        }
+    }
+    out
+}
+
+#[test]
+fn verif_c09_wire() {
+    run_suite("c09_wire", gen_wire, exec);
+}
+
+#[test]
+fn verif_c09_transpose() {
+    run_suite("c09_transpose", gen_transpose, exec);
 }
 
 #[test]
